@@ -339,4 +339,133 @@ theorem skEncode_is_algorithm_24 (m : Mode) (p : ParamSet) (he : p.eta = 2 ∨ p
   · rw [pure_eq] at hout
     exact (ok_inj hout).symm ▸ rfl
 
+
+/-! ### skDecode -/
+
+theorem isInRange_eval (m : Mode) (w : Poly) (lo hi : Int) (hlo : -2147483647 ≤ lo ∧ lo ≤ 2147483648) :
+    isInRange m w lo hi = .ok (w.all (fun e => decide (e ≥ -lo) && decide (e ≤ hi))) := by
+  unfold isInRange
+  rw [arith_i32 _ _ _ (by omega) (by omega)]
+  rfl
+
+/-- `bit_unpack` with `a > 0`: the standard's `BitUnpack`, kept exactly when all coefficients lie in `[-a, b]` -/
+theorem bitUnpack_checked_is_spec (m : Mode) (v : List Nat) (a b : Int) (bl : Nat) (ha : 0 < a ∧ a < 1048576) (hb : 1 ≤ b ∧ b < 1048576)
+    (hbl : bitLen m (a + b) = .ok bl) (hbl2 : 1 ≤ bl ∧ bl ≤ 20) (hv : ∀ x ∈ v, x < 256) (hlen : v.length = 32 * bl) :
+    bitUnpack m v a b = .ok (if (Spec.bitUnpack bl b v).all (fun e => decide (e ≥ -a) && decide (e ≤ b)) then some (Spec.bitUnpack bl b v) else none) := by
+  rw [bitUnpack_is_algorithm_19 m v a b bl ha hb hbl hbl2 hv hlen, isInRange_eval m _ a b (by omega), ok_bind]
+  split <;> rfl
+
+theorem unpackMany_checked_is_spec (m : Mode) (site : String) (bytes : List Nat) (hb : ∀ x ∈ bytes, x < 256) (start : Nat) (a b : Int) (bl : Nat)
+    (ha : 0 < a ∧ a < 1048576) (hbb : 1 ≤ b ∧ b < 1048576) (hbl : bitLen m (a + b) = .ok bl) (hbl2 : 1 ≤ bl ∧ bl ≤ 20) :
+    ∀ (is : List Nat) (acc : List Poly), (∀ i ∈ is, start + (i + 1) * (32 * bl) ≤ bytes.length) →
+      unpackMany m site bytes start (32 * bl) a b is acc =
+        .ok (if Spec.allInRange a b (is.map (fun i => Spec.bitUnpack bl b ((bytes.drop (start + i * (32 * bl))).take (32 * bl))))
+          then some (acc.reverse ++ is.map (fun i => Spec.bitUnpack bl b ((bytes.drop (start + i * (32 * bl))).take (32 * bl)))) else none) := by
+  intro is
+  induction is with
+  | nil => intro acc _; simp [unpackMany, pure, Except.pure, Spec.allInRange]
+  | cons i is ih =>
+    intro acc hlen
+    have hi := hlen i (List.mem_cons_self ..)
+    have e1 : start + (i + 1) * (32 * bl) = start + i * (32 * bl) + 32 * bl := by rw [Nat.add_mul, Nat.one_mul]; omega
+    have hs := slice_ok site bytes (start + i * (32 * bl)) (start + (i + 1) * (32 * bl)) (by constructor <;> omega)
+    have e2 : start + (i + 1) * (32 * bl) - (start + i * (32 * bl)) = 32 * bl := by omega
+    rw [e2] at hs
+    have hsl : ((bytes.drop (start + i * (32 * bl))).take (32 * bl)).length = 32 * bl := by
+      rw [List.length_take, List.length_drop]; omega
+    have hw := bitUnpack_checked_is_spec m _ a b bl ha hbb hbl hbl2 (fun x hx => hb x (mem_slice _ _ _ _ hx)) hsl
+    unfold unpackMany
+    rw [hs, ok_bind, hw, ok_bind]
+    simp only [Spec.allInRange, List.map_cons, List.all_cons]
+    by_cases hr : (Spec.bitUnpack bl b ((bytes.drop (start + i * (32 * bl))).take (32 * bl))).all (fun e => decide (e ≥ -a) && decide (e ≤ b)) = true
+    · rw [if_pos hr, hr, Bool.true_and]
+      simp only []
+      rw [ih _ (fun j hj => hlen j (List.mem_cons_of_mem _ hj))]
+      simp [Spec.allInRange]
+    · rw [if_neg hr]
+      have : (Spec.bitUnpack bl b ((bytes.drop (start + i * (32 * bl))).take (32 * bl))).all (fun e => decide (e ≥ -a) && decide (e ≤ b)) = false := by
+        simpa using hr
+      rw [this, Bool.false_and]
+      simp [pure_eq]
+
+/-- **`sk_decode` is FIPS 204 Algorithm 25 (`skDecode`) as written, accepted exactly when every coefficient of `s1` and `s2` lies in
+    `[-eta, eta]`** (the check the standard requires of an implementation that accepts keys from outside), for every byte string of
+    private-key length -/
+theorem skDecode_is_algorithm_25 (m : Mode) (p : ParamSet) (skb : List Nat) (hb : ∀ x ∈ skb, x < 256)
+    (he : p.eta = 2 ∨ p.eta = 4) (bl : Nat) (hbl : bitLen m (2 * p.eta) = .ok bl)
+    (hlen : skb.length = 128 + 32 * ((p.k + p.l) * bl + D.toNat * p.k)) (hcfg : p.skLen = skb.length) :
+    skDecode m p skb = .ok (
+      let d := Spec.skDecode bl p.eta p.k p.l skb
+      if Spec.allInRange p.eta p.eta d.2.2.2.1 && Spec.allInRange p.eta p.eta d.2.2.2.2.1
+      then some { rho := d.1, key := d.2.1, tr := d.2.2.1, s1 := d.2.2.2.1, s2 := d.2.2.2.2.1, t0 := d.2.2.2.2.2 } else none) := by
+  obtain ⟨bl', h1, h2, h3, h4⟩ := bitLen_eta m p.eta he
+  rw [hbl] at h1
+  simp only [Except.ok.injEq] at h1
+  subst h1
+  have hD : D.toNat = 13 := by decide
+  rw [hD] at hlen
+  have eta0 : 0 < p.eta ∧ p.eta < 1048576 := by rcases he with h | h <;> omega
+  have eta1 : 1 ≤ p.eta ∧ p.eta < 1048576 := by rcases he with h | h <;> omega
+  unfold skDecode
+  have d1 : dassert m "encodings.rs:sk_decode:debug_assert(Alg 25: incorrect eta)" (decide (p.eta = 2) || decide (p.eta = 4)) = .ok () := by
+    have : (decide (p.eta = 2) || decide (p.eta = 4)) = true := by rcases he with h | h <;> simp [h]
+    rw [this]; cases m <;> rfl
+  have d2 : dassert m "encodings.rs:sk_decode:debug_assert_eq(Alg 25: bad sk/config size)"
+      (p.skLen == 128 + 32 * ((p.k + p.l) * bl + D.toNat * p.k)) = .ok () := by
+    have : (p.skLen == 128 + 32 * ((p.k + p.l) * bl + D.toNat * p.k)) = true := by rw [hD]; simp [hcfg, hlen]
+    rw [this]; cases m <;> rfl
+  have s1 := slice_ok "encodings.rs:sk_decode:sk[0..32]" skb 0 32 (by omega)
+  have s2 := slice_ok "encodings.rs:sk_decode:sk[32..64]" skb 32 64 (by omega)
+  have s3 := slice_ok "encodings.rs:sk_decode:sk[64..128]" skb 64 128 (by omega)
+  have hexp : (p.k + p.l) * bl = p.l * bl + p.k * bl := by rw [Nat.add_mul]; omega
+  have hr1 := unpackMany_checked_is_spec m "encodings.rs:sk_decode:s1" skb hb 128 p.eta p.eta bl eta0 eta1 h2 ⟨h3, h4⟩ (List.range p.l) []
+    (fun i hi => by
+      have : i < p.l := List.mem_range.mp hi
+      have : (i + 1) * (32 * bl) ≤ p.l * (32 * bl) := Nat.mul_le_mul_right _ (by omega)
+      have e : p.l * (32 * bl) = 32 * (p.l * bl) := by rw [Nat.mul_left_comm]
+      rw [hlen, hexp]; omega)
+  have hr2 := unpackMany_checked_is_spec m "encodings.rs:sk_decode:s2" skb hb (128 + p.l * (32 * bl)) p.eta p.eta bl eta0 eta1 h2 ⟨h3, h4⟩ (List.range p.k) []
+    (fun i hi => by
+      have : i < p.k := List.mem_range.mp hi
+      have : (i + 1) * (32 * bl) ≤ p.k * (32 * bl) := Nat.mul_le_mul_right _ (by omega)
+      have e : p.l * (32 * bl) = 32 * (p.l * bl) := by rw [Nat.mul_left_comm]
+      have e2 : p.k * (32 * bl) = 32 * (p.k * bl) := by rw [Nat.mul_left_comm]
+      rw [hlen, hexp]; omega)
+  have htop : top = 4096 := by decide
+  have hr3 := unpackMany_is_spec m "encodings.rs:sk_decode:t0" skb hb (128 + p.l * (32 * bl) + p.k * (32 * bl)) (top - 1) top 13
+    (by decide) (by decide) (bitLen_t0 m) (by omega) (by decide) (List.range p.k) []
+    (fun i hi => by
+      have : i < p.k := List.mem_range.mp hi
+      have : (i + 1) * (32 * 13) ≤ p.k * (32 * 13) := Nat.mul_le_mul_right _ (by omega)
+      have e : p.l * (32 * bl) = 32 * (p.l * bl) := by rw [Nat.mul_left_comm]
+      have e2 : p.k * (32 * bl) = 32 * (p.k * bl) := by rw [Nat.mul_left_comm]
+      rw [hlen, hexp]; omega)
+  have d3 : dassert m "encodings.rs:sk_decode:debug_assert_eq(Alg 25: length miscalc)"
+      (128 + p.l * (32 * bl) + p.k * (32 * bl) + p.k * (32 * 13) == skb.length) = .ok () := by
+    have e : p.l * (32 * bl) = 32 * (p.l * bl) := by rw [Nat.mul_left_comm]
+    have e2 : p.k * (32 * bl) = 32 * (p.k * bl) := by rw [Nat.mul_left_comm]
+    have : (128 + p.l * (32 * bl) + p.k * (32 * bl) + p.k * (32 * 13) == skb.length) = true := by
+      rw [hlen, hexp]; simp; omega
+    rw [this]; cases m <;> rfl
+  have d2' : dassert m "encodings.rs:sk_decode:debug_assert_eq(Alg 25: bad sk/config size)"
+      (p.skLen == 128 + 32 * ((p.k + p.l) * bl + 13 * p.k)) = .ok () := by rw [← hD]; exact d2
+  simp only [d1, hbl, hD, d2', s1, s2, s3, ok_bind, hr1]
+  unfold Spec.skDecode
+  simp only [List.reverse_nil, List.nil_append, List.drop_zero, Nat.sub_zero]
+  by_cases c1 : Spec.allInRange p.eta p.eta ((List.range p.l).map (fun i => Spec.bitUnpack bl p.eta ((skb.drop (128 + i * (32 * bl))).take (32 * bl)))) = true
+  · rw [if_pos c1, c1, Bool.true_and]
+    simp only [hr2]
+    by_cases c2 : Spec.allInRange p.eta p.eta ((List.range p.k).map (fun i => Spec.bitUnpack bl p.eta ((skb.drop (128 + p.l * (32 * bl) + i * (32 * bl))).take (32 * bl)))) = true
+    · rw [if_pos c2, if_pos c2]
+      simp only [ok_bind]
+      rw [hr3]
+      simp only [ok_bind, htop, List.reverse_nil, List.nil_append, d3, pure_eq]
+    · rw [if_neg c2, if_neg c2]
+      simp only [ok_bind, pure_eq]
+  · rw [if_neg c1]
+    have : Spec.allInRange p.eta p.eta ((List.range p.l).map (fun i => Spec.bitUnpack bl p.eta ((skb.drop (128 + i * (32 * bl))).take (32 * bl)))) = false := by
+      simpa using c1
+    rw [this, Bool.false_and]
+    simp only [ok_bind, pure_eq, Bool.false_eq_true, if_false]
+
 end Fips204.Impl
